@@ -29,6 +29,16 @@ func main() {
 	case "worker-exec":
 		execfam.WorkerMain()
 		return
+	case "dbg-gen":
+		// dbg-gen <prop> <seed> <index>: print the generated program
+		var seed, idx int64
+		fmt.Sscanf(os.Args[3], "%d", &seed)
+		fmt.Sscanf(os.Args[4], "%d", &idx)
+		p := execfam.GenNth(os.Args[2], seed, int(idx))
+		b, _ := json.MarshalIndent(p, "", " ")
+		fmt.Println(string(b))
+		fmt.Println(p.Taskfile())
+		return
 	case "dbg-dfs":
 		execfam.OpenKFs = rep.LoadFindings().OpenKFs()
 		b, err := os.ReadFile(os.Args[2])
